@@ -7,6 +7,7 @@ tie        correspondence: generated inputs -> real implementation (impl/c18_imp
 predicate  the property itself evaluated on the implementation's outputs (numpy array equality is computed in the
            implementation process), independent of the model
 """
+import concurrent.futures
 import itertools
 import json
 
@@ -460,19 +461,19 @@ def run(ck):
         ck.tally("to_root:" + c["kind"].split(":")[0])
         r = {"ok": None, "IndexError": "IndexErr", "Timeout": "OutOfFuel"}.get(o["r"], "?")
         exp = "(Ok %s)" % zs(o["conn"]) if o["r"] == "ok" else r
-        rows.append((c, o, "(%s, %s, %s)" % (zs(c["conn"]), zs([c["index"]] + c.get("then", [])), exp)))
+        rows.append((c, o, "(%s, %s, %s)" % (zs(c["conn"]), zs([c["index"]] + c.get("then", [])), exp),
+                     "(%s, %s, %s)" % (zs(c["conn"]), zs([c["index"]] + c.get("then", [])), "true" if c["valid"] else "false")))
+    jobs = []
     for fi, part in enumerate(chunks(rows, 500)):
         bad = [x for x in part if x[2].endswith("?)")]
-        for c, o, _ in bad:
+        for c, o, _, _ in bad:
             ck.disagree("to_root", strip(c), "Ok/IndexErr/OutOfFuel", o["r"], note="exception the model does not have")
         part = [x for x in part if not x[2].endswith("?)")]
-        res = eval_cases(ck, "Cases_C18_root_%d.v" % fi,
-                         "Definition cases : list (list Z * list Z * res (list Z)) :=\n [%s].\n" % ";\n  ".join(x[2] for x in part),
-                         ["mismatches to_root_case_ok cases"])
-        if res and res[0] is not None:
-            for i in res[0]:
-                dis["to_root"] += 1
-                ck.disagree("to_root", strip(part[i][0]), "differs (see replay)", part[i][1])
+        jobs.append(("root", part, "Cases_C18_root_%d.v" % fi,
+                     "Definition cases : list (list Z * list Z * res (list Z)) :=\n [%s].\n"
+                     "Definition dcases : list (list Z * list Z * bool) :=\n [%s].\n"
+                     % (";\n  ".join(x[2] for x in part), ";\n  ".join(x[3] for x in part)),
+                     ["mismatches to_root_case_ok cases", "mismatches to_root_dom_case_ok dcases"]))
     # ---- views and conversion
     rows = []
     for c, o in zip(vw, out["views"]):
@@ -482,25 +483,18 @@ def run(ck):
             continue
         view = "[%s]" % "; ".join("None" if s is None else "(Some %s)" % seg_term(s) for s in o["segs"])
         conv = "None" if o["conv"] == "IndexError" else "(Some [%s])" % "; ".join(seg_term(s) for s in o["conv"])
-        rows.append((c, o, "(%s, %s, %s)" % (morph_term(c), z(o["len"]), view), "(%s, %s)" % (morph_term(c), conv)))
+        rows.append((c, o, "(%s, %s, %s)" % (morph_term(c), z(o["len"]), view), "(%s, %s)" % (morph_term(c), conv),
+                     "(%s, %s)" % (morph_term(c), "true" if c["plain"] else "false")))
     for fi, part in enumerate(chunks(rows, 300)):
-        res = eval_cases(ck, "Cases_C18_view_%d.v" % fi,
-                         "Definition vcases : list (amorph vtx * Z * list (option (segment vtx))) :=\n [%s].\n"
-                         "Definition ccases : list (amorph vtx * option (list (segment vtx))) :=\n [%s].\n"
-                         % (";\n  ".join(x[2] for x in part), ";\n  ".join(x[3] for x in part)),
-                         ["mismatches view_case_ok vcases",
-                          "mismatches (conv_case_ok (to_neuroml_morphology vtx)) ccases",
-                          "mismatches (conv_case_ok (to_neuroml_morphology_orig vtx)) ccases"])
-        if res and None not in res:
-            for i in res[0]:
-                dis["view"] += 1
-                ck.disagree("segments_view", strip(part[i][0]), "differs (see replay)", {k: part[i][1][k] for k in ("len", "segs")})
-            for i in res[1]:
-                dis["convert"] += 1
-                ck.disagree("to_neuroml_morphology", strip(part[i][0]), "segments of vertices 1..n-1", part[i][1]["conv"],
-                            note="implementation agrees with the pinned-code model to_neuroml_morphology_orig"
-                            if i not in res[2] else "")
-            orig["convert"] += len([i for i in res[1] if i not in res[2]])
+        jobs.append(("view", part, "Cases_C18_view_%d.v" % fi,
+                     "Definition vcases : list (amorph vtx * Z * list (option (segment vtx))) :=\n [%s].\n"
+                     "Definition ccases : list (amorph vtx * option (list (segment vtx))) :=\n [%s].\n"
+                     "Definition dcases : list (amorph vtx * bool) :=\n [%s].\n"
+                     % (";\n  ".join(x[2] for x in part), ";\n  ".join(x[3] for x in part), ";\n  ".join(x[4] for x in part)),
+                     ["mismatches view_case_ok vcases",
+                      "mismatches (conv_case_ok (to_neuroml_morphology vtx)) ccases",
+                      "mismatches (conv_case_ok (to_neuroml_morphology_orig vtx)) ccases",
+                      "mismatches view_dom_case_ok dcases"]))
     # ---- documents and single morphologies
     rows = []
     for c, o in zip(dc, out["docs"]):
@@ -511,20 +505,15 @@ def run(ck):
             continue
         d = "(Build_adoc vtx [%s] [%s])" % ("; ".join("(%s, %s)" % (ostr(x["id"]), morph_term(x["m"])) for x in c["cells"]),
                                             "; ".join(morph_term(m) for m in c["morphs"]))
-        rows.append((c, o, "(%s, %s)" % (d, t)))
+        rows.append((c, o, "(%s, %s)" % (d, t), "(%s, %s)" % (d, "true" if effective_names(c)[1] else "false")))
     for fi, part in enumerate(chunks(rows, 400)):
-        res = eval_cases(ck, "Cases_C18_doc_%d.v" % fi,
-                         "Definition cases : list (adoc vtx * rt vtx) :=\n [%s].\n" % ";\n  ".join(x[2] for x in part),
-                         ["mismatches (doc_case_ok (roundtrip_document vtx)) cases",
-                          "mismatches (doc_case_ok (roundtrip_document_orig vtx)) cases"])
-        if res and None not in res:
-            for i in res[0]:
-                dis["document"] += 1
-                o = part[i][1]
-                ck.disagree("write_document/load", strip(part[i][0]), "differs (see replay)",
-                            {k: o.get(k) for k in ("r", "msg", "loaded")},
-                            note="implementation agrees with the pinned-code model write_document_orig" if i not in res[1] else "")
-            orig["document"] += len([i for i in res[0] if i not in res[1]])
+        jobs.append(("doc", part, "Cases_C18_doc_%d.v" % fi,
+                     "Definition cases : list (adoc vtx * rt vtx) :=\n [%s].\n"
+                     "Definition dcases : list (adoc vtx * bool) :=\n [%s].\n"
+                     % (";\n  ".join(x[2] for x in part), ";\n  ".join(x[3] for x in part)),
+                     ["mismatches (doc_case_ok (roundtrip_document vtx)) cases",
+                      "mismatches (doc_case_ok (roundtrip_document_orig vtx)) cases",
+                      "mismatches doc_dom_case_ok dcases"]))
     rows = []
     for c, o in zip(ms, out["morphs"]):
         ck.tally("single-morphology")
@@ -534,13 +523,50 @@ def run(ck):
             continue
         rows.append((c, o, "(%s, %s)" % (morph_term(c), t)))
     for fi, part in enumerate(chunks(rows, 300)):
-        res = eval_cases(ck, "Cases_C18_morph_%d.v" % fi,
-                         "Definition cases : list (amorph vtx * rt vtx) :=\n [%s].\n" % ";\n  ".join(x[2] for x in part),
-                         ["mismatches morph_case_ok cases"])
-        if res and res[0] is not None:
+        jobs.append(("morph", part, "Cases_C18_morph_%d.v" % fi,
+                     "Definition cases : list (amorph vtx * rt vtx) :=\n [%s].\n" % ";\n  ".join(x[2] for x in part),
+                     ["mismatches morph_case_ok cases"]))
+
+    # ---- Coq evaluates the model (and the theorems' domain checks) on every case; files are compiled in parallel
+    with concurrent.futures.ThreadPoolExecutor(max_workers=4) as ex:
+        results = list(ex.map(lambda j: eval_cases(ck, j[2], j[3], j[4]), jobs))
+    dom_bad = 0
+    for (kind, part, name, _, _), res in zip(jobs, results):
+        if not res or None in res:
+            continue
+        if kind == "root":
+            for i in res[0]:
+                dis["to_root"] += 1
+                ck.disagree("to_root", strip(part[i][0]), "differs (see replay)", part[i][1])
+            dom_bad += len(res[1])
+        elif kind == "view":
+            for i in res[0]:
+                dis["view"] += 1
+                ck.disagree("segments_view", strip(part[i][0]), "differs (see replay)", {k: part[i][1][k] for k in ("len", "segs")})
+            for i in res[1]:
+                dis["convert"] += 1
+                ck.disagree("to_neuroml_morphology", strip(part[i][0]), "segments of vertices 1..n-1", part[i][1]["conv"],
+                            note="implementation agrees with the pinned-code model to_neuroml_morphology_orig"
+                            if i not in res[2] else "")
+            orig["convert"] += len([i for i in res[1] if i not in res[2]])
+            dom_bad += len(res[3])
+        elif kind == "doc":
+            for i in res[0]:
+                dis["document"] += 1
+                o = part[i][1]
+                ck.disagree("write_document/load", strip(part[i][0]), "differs (see replay)",
+                            {k: o.get(k) for k in ("r", "msg", "loaded")},
+                            note="implementation agrees with the pinned-code model write_document_orig" if i not in res[1] else "")
+            orig["document"] += len([i for i in res[0] if i not in res[1]])
+            dom_bad += len(res[2])
+        else:
             for i in res[0]:
                 dis["morphology"] += 1
                 ck.disagree("write_morphology/load", strip(part[i][0]), "differs (see replay)", part[i][1])
+    # the harness's classification "inside the theorems' domain" must be the one Coq computes (to_root_domb,
+    # view_domb, doc_domb; C18_domain_checks_sound): otherwise predicate and theorem speak about different inputs
+    ck.oblige("domain-classification-agrees-with-Coq", dom_bad == 0, "%d inputs classified differently" % dom_bad,
+              kind="correspondence")
     ck.extra["disagreements_by_model"] = dis
     ck.extra["implementation_matches_pinned_code_model_instead"] = orig
 
